@@ -5,3 +5,6 @@ import BufrProps.C02
 #print axioms Bufr.C02.C02_fallback
 #print axioms Bufr.C02.C02_flag
 #print axioms Bufr.C02.C02_same_value_function
+#print axioms Bufr.C02.C02_af_column
+#print axioms Bufr.C02.C02_character_column
+#print axioms Bufr.C02.C02_equal_strings_same_octets
